@@ -119,6 +119,35 @@ Theorem C12_inverse_cache_store_transparent :
     = map (inv_f_l u g) history.
 Proof. exact (@inv_cache_store_transparent). Qed.
 
+(** the under cache and the anti cache by themselves (keys: (hash_deep of the nodes, g_sig, inverse),
+    resp. hash of for_un then hash_deep of the nodes): sufficient, and with the store side
+    condition transparent on every history *)
+Theorem C12_under_cache_sufficient : forall (x y : under_input),
+  under_key x = under_key y -> under_deps x = under_deps y.
+Proof. exact under_cache_sufficient. Qed.
+
+Theorem C12_anti_cache_sufficient : forall (x y : anti_input),
+  anti_key x = anti_key y -> anti_deps x = anti_deps y.
+Proof. exact anti_cache_sufficient. Qed.
+
+Theorem C12_under_cache_store_transparent :
+  forall (K V : Type) (keqb : K -> K -> bool), (forall a b, keqb a b = true <-> a = b) ->
+  forall (kinj : list node * (N * bool) -> K), (forall a b, kinj a = kinj b -> a = b) ->
+  forall (u : list node * (N * bool) -> bool) (g : list node * (N * bool) -> option N -> V) usable
+         (history : list (under_input * N)),
+    run_memo_store keqb usable (len_store under_deps u) (fun x => kinj (under_key (fst x))) (len_f under_deps u g) history
+    = map (len_f under_deps u g) history.
+Proof. exact under_cache_store_transparent. Qed.
+
+Theorem C12_anti_cache_store_transparent :
+  forall (K V : Type) (keqb : K -> K -> bool), (forall a b, keqb a b = true <-> a = b) ->
+  forall (kinj : bool * list node -> K), (forall a b, kinj a = kinj b -> a = b) ->
+  forall (u : list node * bool -> bool) (g : list node * bool -> option N -> V) usable
+         (history : list (anti_input * N)),
+    run_memo_store keqb usable (len_store anti_deps u) (fun x => kinj (anti_key (fst x))) (len_f anti_deps u g) history
+    = map (len_f anti_deps u g) history.
+Proof. exact anti_cache_store_transparent. Qed.
+
 (** the purity key does not determine what is read of the bindings table (open finding) *)
 Theorem C12_purity_cache_refuted : exists x y, pur_key x = pur_key y /\ pur_deps x <> pur_deps y.
 Proof. exact pur_cache_refuted. Qed.
@@ -202,6 +231,10 @@ Print Assumptions C12_zip_cache_transparent.
 Print Assumptions C12_inverse_key_needs_index.
 Print Assumptions C12_memo_store_transparent.
 Print Assumptions C12_inverse_cache_store_transparent.
+Print Assumptions C12_under_cache_sufficient.
+Print Assumptions C12_anti_cache_sufficient.
+Print Assumptions C12_under_cache_store_transparent.
+Print Assumptions C12_anti_cache_store_transparent.
 Print Assumptions C12_purity_cache_refuted.
 Print Assumptions C12_inverse_sufficient_after_fix.
 Print Assumptions C12_zip_sufficient_after_fix.
